@@ -276,7 +276,7 @@ def run_property(prop, tier, seed, t0):
     sys.path.insert(0, os.path.join(ROOT, "checks"))
     import registry
     spec = registry.PROPS[prop]
-    timeout_s = 10 if tier == "quick" else 60
+    timeout_s = int(os.environ.get("VERIF_TIMEOUT", "24" if tier == "quick" else "60"))   # generous: verdicts must not flip when all cores are busy
     known = [k for k in load_known() if k.get("status") == "open"]
     baseline = load_baseline()
     known_hit = {}
